@@ -27,6 +27,8 @@ real-symmetric label-conserving Hamiltonian with offsets / duplicate terms / 3-b
            conserved over a multi-step history; sector / labels kept (also imaginary time).
   chain    linear tree obtained with from_mps: tree result == chain (renormalizer.mps) result ==
            dense propagator, same scheme and configuration, complete bonds.
+  annihilated  a Hartree state annihilated by a pure hopping H (vacuum / filled): stationary.
+           Known defect: P&C raises ValueError (a zero Taylor term has no consistent labels).
   aux      density-operator-like state on the P+Q tree (add_auxiliary_space), operator on the P
            tree only: expm(H (x) 1_Q).
 Every evolve call also checks: sector conserved (dense support + qntot), bond labels consistent with
@@ -179,9 +181,24 @@ def _prep_vmf(rng, t):
     return t2, True
 
 
-def _classify(spec, fam, method, key, e):
+def _annihilated(h, psi):
+    """some Taylor term H^k psi (k <= 4) is exactly zero, e.g. the vacuum under a hopping Hamiltonian"""
+    hn = max(np.linalg.norm(h, 2), 1e-300)
+    v = psi / np.linalg.norm(psi)
+    for _ in range(4):
+        v = h @ v / hn
+        if np.linalg.norm(v) < 1e-12:
+            return True
+    return False
+
+
+def _classify(spec, fam, method, key, e, h=None, psi=None):
     """stable signatures of the genuine crashes of the pinned tree (see the final report / DESIGN §7)"""
     msg = str(e)
+    if method is PC and isinstance(e, ValueError) and "Invalid quantum number" in msg and h is not None and _annihilated(h, psi):
+        # P&C builds H psi, H^2 psi, ...; a term that is the zero vector has no consistent bond labels
+        # (same behaviour in the chain implementation)
+        return "evolve:pc_tdrk4:H-annihilates-state:raises-ValueError"
     if spec["qn_size"] == 2 and isinstance(e, ValueError) and "Inconsistent quantum number size" in msg:
         # TTNS.expectation/ttns_norm/normalize build a 1-component BasisDummy -> every evolve(normalize=True)
         return "evolve:qn2:normalize:raises-ValueError"
@@ -224,7 +241,11 @@ def _ps_order_check(cx, key, ttno, h, t_in, method, tau, hn, err1, rep, branchin
         tt = t_in.copy()
         for _ in range(n):
             _cfg(tt, method)
-            tt = tt.evolve(ttno, tau / n, normalize=False)
+            try:
+                tt = tt.evolve(ttno, tau / n, normalize=False)
+            except Exception as e:
+                run.violation(f"evolve:{key}:raises:{type(e).__name__}", rep(error=repr(e)[:300], substeps=n))
+                return
             cx.n += 1
         errs.append(float(np.linalg.norm(L.dense_ttns(tt) - ref) / np.linalg.norm(ref)))
     run.count("ps-order:measured")
@@ -263,7 +284,7 @@ def _evolve_checked(cx, fam, spec, ttno, h, lab, q, t, method, tau, normalize, t
     run.count("call:" + key)
     cx.n += 1
     _cfg(t, method, tight, no_growth=(fam == "cluster"))
-    ps_order = not spec.get("trivial_qn", False) and fam != "cluster"
+    ps_order = not spec.get("trivial_qn", False) and fam not in ("cluster", "annihilated")
     t_in = t.copy() if (ps_order and method in (PS, PS2) and tol is not None) else None
     snap = L.snapshot(t)
     psi0 = L.dense_ttns(t)
@@ -272,7 +293,7 @@ def _evolve_checked(cx, fam, spec, ttno, h, lab, q, t, method, tau, normalize, t
     try:
         new = t.evolve(ttno, tau, normalize=normalize)
     except Exception as e:  # the property promises a result for every input generated here
-        sig = _classify(spec, fam, method, key, e)
+        sig = _classify(spec, fam, method, key, e, h, psi0)
         cx.crashed.add(sig)
         run.violation(sig, rep(error=repr(e)[:300]))
         # after one of the three understood crashes the history goes on from the (possibly in-place
@@ -474,7 +495,13 @@ def fam_order(cx):
         tau = (-1j * total / nst) if imag else total / nst
         for _ in range(nst):
             _cfg(t, PC)
-            t = t.evolve(ttno, tau, normalize=False)
+            try:
+                t = t.evolve(ttno, tau, normalize=False)
+            except Exception as e:
+                run.violation(f"evolve:order:pc_tdrk4:{'imag' if imag else 'real'}:raises:{type(e).__name__}",
+                              cx.replay("order", spec, dict(np_seed=seed, qntot=np.asarray(q).tolist(), tensors=L.tensors_json(t0)),
+                                        [dict(total=total, imag=imag, steps=nst)], dict(error=repr(e)[:300])))
+                return
             cx.n += 1
         errs.append(float(np.linalg.norm(L.dense_ttns(t) - ref) / np.linalg.norm(ref)))
     run.count(f"call:order:pc_tdrk4:{'imag' if imag else 'real'}")
@@ -655,8 +682,9 @@ def fam_chain(cx):
     try:
         new_t = ttns.evolve(ttno, tau, normalize=normalize)
     except Exception as e:
-        cx.crashed.add(_classify(spec, "chain", method, key, e))
-        run.violation(_classify(spec, "chain", method, key, e), dict(rep, error=repr(e)[:300]))
+        sig = _classify(spec, "chain", method, key, e, h, psi0)
+        cx.crashed.add(sig)
+        run.violation(sig, dict(rep, error=repr(e)[:300]))
         return
     got_t = tree_vec(new_t) * new_t.coeff
     ref = L.expm_apply(h, psi0, tau)
@@ -756,8 +784,39 @@ def fam_aux(cx):
         t = new
 
 
+def fam_annihilated(cx):
+    """a product state that H annihilates (vacuum / completely filled state under a pure hopping H):
+    stationary under every scheme.  Known defect: P&C raises ValueError('Invalid quantum number')."""
+    rng, run = cx.rng, cx.run
+    nset = int(rng.integers(2, 5))
+    basis = [dict(kind="spin", dof=f"s{i}", nbas=2, sigmaqn=[[0], [1]]) for i in range(nset)]
+    nodes = [dict(parent=-1, sets=[0])]
+    for i in range(1, nset):
+        nodes.append(dict(parent=int(rng.integers(max(0, i - 2), i)), sets=[i]))
+    terms = []
+    for i in range(nset - 1):
+        c = float(np.round(rng.uniform(0.3, 1.0), 3))
+        terms.append(dict(symbol="sigma_- sigma_+", dofs=[f"s{i}", f"s{i + 1}"], factor=c, qn=[[1], [-1]]))
+        terms.append(dict(symbol="sigma_+ sigma_-", dofs=[f"s{i}", f"s{i + 1}"], factor=c, qn=[[-1], [1]]))
+    spec = dict(qn_size=1, basis=basis, nodes=nodes, terms=terms, family="annihilated", trivial_qn=False)
+    tree, bs, ttno, h, lab = _build(spec)
+    filled = bool(rng.random() < 0.5)
+    t = TTNS(tree, {f"s{i}": (1 if filled else 0) for i in range(nset)})
+    q = np.array([nset if filled else 0])
+    state0 = dict(kind="hartree", occupation=int(filled), qntot=q.tolist(), tensors=L.tensors_json(t))
+    method, normalize = _pick(cx, spec, _draw_method(rng))
+    if "evolve:pc_tdrk4:H-annihilates-state:raises-ValueError" not in cx.crashed and rng.random() < 0.5:
+        method = PC
+    imag = bool(rng.random() < 0.5)
+    tau = _tau(rng, np.linalg.norm(h, 2), imag, 0.05, 0.5)
+    hist = [(method, tau, normalize)]
+    cx.distinct.add(("annihilated", nset, filled, NAME[method], imag))
+    # the sector is one-dimensional: every scheme must return the state itself
+    _evolve_checked(cx, "annihilated", spec, ttno, h, lab, q, t, method, tau, normalize, TOL_EXACT, state0, hist)
+
+
 FAMILIES = [("exact", fam_exact, 6), ("cluster", fam_cluster, 6), ("ps-any", fam_ps_any, 4), ("order", fam_order, 1),
-            ("ps-order", fam_ps_order, 3), ("chain", fam_chain, 3), ("aux", fam_aux, 2)]
+            ("ps-order", fam_ps_order, 3), ("chain", fam_chain, 3), ("aux", fam_aux, 2), ("annihilated", fam_annihilated, 1)]
 
 
 def search(run, rng, quick):
@@ -773,7 +832,12 @@ def search(run, rng, quick):
                     stop = True
                     break
                 run.count("case:" + name)
-                fn(cx)
+                try:
+                    fn(cx)
+                except Exception as e:   # a library call of the set-up (TTNO/TTNS construction, add, canonicalise, ...) failed
+                    import traceback
+                    run.violation(f"setup:{name}:raises:{type(e).__name__}", dict(family=name, error=repr(e)[:300],
+                                                                                  traceback=traceback.format_exc()[-1500:]))
             if stop:
                 break
         if stop:
